@@ -1,6 +1,7 @@
 import Orb.Proto
 import Orb.CoreNil
 import Orb.GeoJSON
+import Orb.GeoJSONExt
 
 /-!
   Driver for C02 (GeoJSON via JSON and BSON) and the GeoJSON share of C05 (`handleHostile`).
@@ -346,7 +347,8 @@ def normFCOut (ts : Toks) : String :=
 /-- labels of known findings: emitted only when implementation and model agree on the whole case -/
 def knownLabels : List String :=
   ["propfail nested-empty-collection-rejected", "propfail empty-collection-unmarshalgeometry-rejects-null",
-   "propfail bson-empty-coordinates-dropped", "propfail nil-member-written-as-null"]
+   "propfail bson-empty-coordinates-dropped", "propfail nil-member-written-as-null",
+   "propfail nil-geometry-pointer-bson-panic", "propfail geometry-receiver-keeps-stale-field"]
 
 /-- final verdict: a NEW violation outranks a model disagreement; a KNOWN label needs agreement -/
 def finish (agree : Bool) (diffMsg : String) (r : String) : String :=
@@ -719,6 +721,253 @@ def handleHostile (inp out : List String) : String :=
           s!"ok hostile-{kind} {tag}"
   | _, _ => "bad hostile"
 
+
+/-! ### hand-built geometries (`hand`) -/
+
+/-- `N` | `H x<hex Type> <gsN value | nil> <Geometries: - | l n hand*>` -/
+partial def hand : P HG := fun ts =>
+  match ts with
+  | "N" :: ts => some (.nilPtr, ts)
+  | "H" :: ts => do
+    let (ty, ts) ← xstr ts
+    let (n, ts) ← ngeom ts
+    match ts with
+    | "-" :: ts => pure (.mk ty n [], ts)
+    | "l" :: ts => do
+      let (k, ts) ← nat ts
+      let rec go : Nat → Toks → Option (List HG × Toks)
+        | 0, ts => some ([], ts)
+        | k+1, ts => do
+          let (h, ts) ← hand ts
+          let (hs, ts) ← go k ts
+          pure (h :: hs, ts)
+      let (hs, ts) ← go k ts
+      pure (.mk ty n hs, ts)
+    | _ => none
+  | _ => none
+
+def hgCoords : HG → NG
+  | .nilPtr => .nilIface
+  | .mk _ n _ => n
+
+def hgGeoms : HG → List HG
+  | .nilPtr => []
+  | .mk _ _ gs => gs
+
+/-- `hand <HG> => J ; UnmarshalGeometry ; json.Unmarshal(&ptr) ; remarshal ; B ; bson.Unmarshal ; remarshal ;
+      WB ; bson.Unmarshal(&wrapper).G ; mut same|mutated`.
+    Correspondence: the three documents against `hgTopJson` / `hgTopBson` / `hgWrapBson` (a nil pointer
+    anywhere: the bson encoder panics — predicted), every decode outcome against the model's decoders
+    on the model's documents.  Property, for a CONSISTENT value (only Coordinates, or only Geometries
+    with consistent members; the Type string is free): the round trip to the canonical value of
+    `g.Geometry()`, RFC 7946 shape, idempotent re-marshal, json / bson top level / bson as a field.
+    Values whose `NewGeometry` twin falls into a known finding of the `geom` op (nil members, nested
+    empty collection, empty collection = null, typed nil, bson empty coordinates) write — provably,
+    `hand_doc_eq` — the same document and are judged there: correspondence only. -/
+def handleHand (inp out : Toks) : String :=
+  match hand inp, splitSemi out with
+  | some (h, []), [jdoc, dec1, dec2, rm, bdoc, bdec, brm, wdoc, wdec, mutd] =>
+    let jd := hgTopJson h
+    let bd := hgTopBson h
+    let wd := hgWrapBson h
+    let bpanic := hgBsonPanics h
+    let m1 := showRes showGOut (geomOfDoc .json jd)
+    let m2 := showRes showGOut (geomPtrOfDoc jd)
+    let mb := showRes showGOut (geomOfDoc .bson bd)
+    let mw := (match hgMember .bson h with
+      | .null => "ok nil"
+      | j => showRes showGOut (geomOfDoc .bson j))
+    let docOk := treeIs jdoc (· == jd)
+    let jsonOk := docOk && normGeomOut dec1 == m1 && normGeomOut dec2 == m2
+    let bsonOk :=
+      if bpanic then bdoc == ["panic"] && wdoc == ["panic"] && bdec == ["na"] && wdec == ["na"]
+      else treeIs bdoc (· == bd) && normGeomOut bdec == mb && treeIs wdoc (· == wd) && normGeomOut wdec == mw
+    let agree := jsonOk && bsonOk
+    finish agree s!"diff json={jsonOk} bson={bsonOk} ; {showJson jd} ; {m1} ; {m2} ; {showJson bd} ; {mb} ; {showJson wd} ; {mw}" <|
+    if mutd != ["mut", "same"] then "propfail hand-marshal-mutates-value"
+    else if (jdoc ++ dec1 ++ dec2 ++ rm).any (· == "panic") then "propfail hand-panic"
+    else if (bdoc ++ bdec ++ brm ++ wdoc ++ wdec).any (· == "panic") then
+      (if bpanic then "propfail nil-geometry-pointer-bson-panic" else "propfail hand-panic")
+    else if jdoc == ["merr"] || bdoc == ["merr"] || wdoc == ["merr"] then "propfail hand-marshal-error"
+    else
+      match hgValue h with
+      | none => "ok hand-inconsistent"
+      | some n =>
+        let v := toV n
+        let want := "ok " ++ showGOut (canonV v)
+        if emptyCollCoords (hgCoords h) then "ok hand-empty-collection-in-coordinates"
+        else if hasNilIfaceMember n || vIsTopNil v || vNestedEmpty v || vIsNullGeom v || hasNilSliceMember n then
+          "ok triv-hand-known-class"
+        else if normGeomOut dec2 != want then "propfail hand-json-roundtrip-pointer"
+        else if normGeomOut dec1 != want then "propfail hand-json-roundtrip"
+        else if rm != ["same"] then "propfail hand-json-remarshal"
+        else if !(treeIs jdoc wellformed) then "propfail hand-json-wellformed"
+        else if vEmptyMulti v then "ok hand json-only"
+        else if normGeomOut bdec != want then "propfail hand-bson-roundtrip"
+        else if brm != ["same"] then "propfail hand-bson-remarshal"
+        else if !(treeIs bdoc wellformed) then "propfail hand-bson-wellformed"
+        else if normGeomOut wdec != want then "propfail hand-bson-value-roundtrip"
+        else
+          match hgCoords h, hgGeoms h with
+          | .ring _, _ | .bound _ _, _ => "ok hand to-polygon"
+          | .collection _, _ => "ok hand coll-in-coordinates"
+          | _, _ :: _ => "ok hand geometries"
+          | _, _ => "ok hand geom"
+  | some (_, _ :: _), _ => "bad input"
+  | none, _ => "bad input"
+  | _, _ => "bad output"
+
+/-! ### sequences of documents into one receiver (`seq`) -/
+
+/-- split a token list at `|` tokens -/
+def splitBar (ts : Toks) : List Toks :=
+  let rec go (ts : Toks) (cur : Toks) (acc : List Toks) : List Toks :=
+    match ts with
+    | [] => (cur.reverse :: acc).reverse
+    | "|" :: rest => go rest [] (cur.reverse :: acc)
+    | t :: rest => go rest (t :: cur) acc
+  go ts [] []
+
+/-- the receiver's fields as the harness prints them after the geometry -/
+def showGRecv (r : GRecv) : String :=
+  "ok " ++ showX r.ty ++ " " ++ showGVal r.geometry ++ " st " ++ (if r.coords.isSome then "1" else "0") ++ " " ++
+    (match r.geoms with | none => "n" | some l => toString l.length)
+
+/-- `ok x<Type> <gval> st a b`, the geometry re-printed (typed-nil members as empty values) -/
+def normGRecvOut (ts : Toks) : String :=
+  match ts with
+  | "ok" :: x :: rest =>
+    (match ngeom rest with
+     | some (n, ["st", a, b]) => "ok " ++ x ++ " " ++ showGVal (toV n) ++ " st " ++ a ++ " " ++ b
+     | _ => unw ts)
+  | _ => unw ts
+
+structure SeqStep where
+  fresh : String
+  reused : String
+  rm : String
+
+def resStr {α : Type} (sh : α → String) : R α → String
+  | .ok a => sh a
+  | .err e => "err " ++ errClass e
+  | .panic _ => "panic"
+
+/-- the receiver as a hand-built value (the members of a decoded collection are new `Geometry`
+    values: one field set each) -/
+partial def hgOfG : G → HG
+  | .collection gs => .mk "" .nilIface (gs.map hgOfG)
+  | g => .mk "" (CoreNil.ofGeom g) []
+
+def hgOfRecv (r : GRecv) : HG :=
+  .mk r.ty (match r.coords with | some v => CoreNil.ofGVal v | none => .nilIface) ((r.geoms.getD []).map hgOfG)
+
+/-- the receiver marshalled again: `json.Marshal(&g)` / `bson.Marshal(&g)` -/
+def recvDoc (c : Codec) (r : GRecv) : Json :=
+  match c with
+  | .json => hgTopJson (hgOfRecv r)
+  | .bson => hgTopBson (hgOfRecv r)
+
+def kindOfTn : String → Option Kind
+  | "T0" => some .point | "T1" => some .multiPoint | "T2" => some .lineString
+  | "T3" => some .multiLineString | "T4" => some .polygon | "T5" => some .multiPolygon
+  | _ => none
+
+/-- the model's steps.  `st`: the Geometry receiver's fields before the step (`geomInto`); the other
+    receiver types take no state — `featureInto`, `fcInto`, `typedInto` ignore it on success. -/
+def seqModel (c : Codec) (tn form : String) : GRecv → List (Bool × Json) → Option (List SeqStep)
+  | _, [] => some []
+  | st, (pad, j) :: rest =>
+    let isNull := (match j with | .null => true | _ => false)
+    let ptrForm := form == "pp" || form == "sp" || form == "mp" || form == "tp"
+    -- a new element for every decode: maps; bson slices
+    let freshForm := form == "mp" || form == "mv" || (c == .bson && (form == "sp" || form == "sv"))
+    let rawNull := isNull && c == .json && !(pad && form == "m")
+    let step? : Option (SeqStep × GRecv) :=
+      if isNull && ptrForm then
+        some (⟨if tn == "F" || tn == "C" then "ok N" else "ok nil", if tn == "F" || tn == "C" then "ok N" else "ok nil", "same"⟩, {})
+      else if tn == "G" then
+        let st0 : GRecv := if freshForm then {} else st
+        let f := geomInto c {} j
+        let r := geomInto c st0 j
+        let rm := (match f, r with
+          | .ok a, .ok b => if recvDoc c a == recvDoc c b then "same" else "differs"
+          | _, _ => "na")
+        some (⟨resStr showGRecv f, resStr showGRecv r, rm⟩, match r with | .ok b => b | _ => st0)
+      else if tn == "F" then
+        let f := featureOfDoc c rawNull j
+        let s := resStr (fun x => "ok " ++ showFeature (some x)) f
+        some (⟨s, s, if f.isOk then "same" else "na"⟩, st)
+      else if tn == "C" then
+        let f := fcOfDoc c rawNull j
+        let s := resStr (fun x => "ok " ++ showFC x) f
+        some (⟨s, s, if f.isOk then "same" else "na"⟩, st)
+      else
+        match kindOfTn tn with
+        | none => none
+        | some k =>
+          let f := typedOfDoc c k j
+          let s := resStr (fun v => "ok " ++ showGVal v) f
+          some (⟨s, s, if f.isOk then "same" else "na"⟩, st)
+    match step? with
+    | none => none
+    | some (s, st') => (seqModel c tn form st' rest).map (s :: ·)
+
+def normSeqOut (tn : String) (ts : Toks) : String :=
+  if tn == "G" then normGRecvOut ts
+  else if tn == "F" then normFeatOut ts
+  else if tn == "C" then normFCOut ts
+  else normTypedOut ts
+
+def parseSeqDoc (ts : Toks) : Option (Bool × Json) :=
+  match ts with
+  | "pad" :: rest => (wholeJson rest).map (true, ·)
+  | ts => (wholeJson ts).map (false, ·)
+
+def parseSeqStep (tn : String) (ts : Toks) : Option SeqStep :=
+  match splitBar ts with
+  | [f, r, ["rm", x]] =>
+    let fs := normSeqOut tn f
+    some ⟨fs, if r == ["="] then fs else normSeqOut tn r, x⟩
+  | _ => none
+
+/-- `seq <json|bson> <G|F|C|T0..T5> <form> (; [pad] tree)+ => (fresh | reused | rm x) ; …`.
+    THE CLAUSE ("receiver history must not matter"): at every step the receiver that has been through
+    the earlier documents holds what a brand-new receiver holds after the same document (same printed
+    value incl. Type, same bytes when marshalled again); the decode is a function of the document.
+    Correspondence: both columns against the model (`featureOfDoc` … for the fresh one; `geomInto` on
+    the carried state for a Geometry receiver, the only one whose Go code assigns field by field). -/
+def handleSeq (inp out : Toks) : String :=
+  match inp with
+  | codec :: tn :: form :: ";" :: rest =>
+    let c : Codec := if codec == "bson" then .bson else .json
+    (match (splitSemi rest).mapM parseSeqDoc, (splitSemi out).mapM (parseSeqStep tn) with
+     | some docs, some steps =>
+       (match seqModel c tn form {} docs with
+        | none => "bad seq type"
+        | some model =>
+          if model.length != steps.length then "bad seq length" else
+          -- FeatureCollection members are visited in Go's random map order: with several failing
+          -- members the error class may differ from call to call
+          let equiv (a b : String) : Bool := a == b || (tn == "C" && a.startsWith "err" && b.startsWith "err")
+          let pairs := model.zip steps
+          let agree := pairs.all fun (m, i) => equiv m.fresh i.fresh && equiv m.reused i.reused && m.rm == i.rm
+          let hist := steps.zipIdx.filterMap fun (s, i) =>
+            if !(equiv s.fresh s.reused) || s.rm == "differs" then some i else none
+          let showM := " ; ".intercalate (model.map fun m => m.fresh ++ " | " ++ m.reused ++ " | rm " ++ m.rm)
+          finish agree ("diff " ++ showM) <|
+          if out.any (· == "panic") then "propfail seq-panic"
+          else
+            match hist with
+            | i :: _ =>
+              if tn == "G" then "propfail geometry-receiver-keeps-stale-field"
+              else s!"propfail receiver-history-matters {tn} {form} {codec} step {i + 1}"
+            | [] =>
+              let errs := steps.any fun s => s.fresh.startsWith "err"
+              s!"ok seq {tn} {codec}" ++ (if errs then " with-errors" else ""))
+     | none, _ => "bad seq docs"
+     | _, none => "bad seq output")
+  | _ => "bad seq input"
+
 def handle (ts : List String) : String :=
   match ts with
   | op :: rest =>
@@ -730,6 +979,8 @@ def handle (ts : List String) : String :=
     | "fc" => handleFC inp out
     | "bbox" => handleBBox inp out
     | "hostile" => handleHostile inp out
+    | "hand" => handleHand inp out
+    | "seq" => handleSeq inp out
     | _ => "bad op"
   | [] => "bad empty"
 
